@@ -75,21 +75,18 @@ pub fn parse_datetime(s: &str) -> Result<(NaiveDateTime, NaiveDateTime), String>
                     let start = date
                         .naive_local()
                         .with_hour(hour_start)
-                        .unwrap()
-                        .with_minute(min_start)
-                        .unwrap()
-                        .with_second(sec_start)
-                        .unwrap();
+                        .and_then(|dt| dt.with_minute(min_start))
+                        .and_then(|dt| dt.with_second(sec_start));
                     let finish = date
                         .naive_local()
                         .with_hour(hour_finish)
-                        .unwrap()
-                        .with_minute(min_finish)
-                        .unwrap()
-                        .with_second(sec_finish)
-                        .unwrap();
+                        .and_then(|dt| dt.with_minute(min_finish))
+                        .and_then(|dt| dt.with_second(sec_finish));
 
-                    Ok((start, finish))
+                    match (start, finish) {
+                        (Some(start), Some(finish)) => Ok((start, finish)),
+                        _ => Err("Error parsing date/time value: ".to_string() + s),
+                    }
                 }
                 _ => Err("Error converting date/time to local: ".to_string() + s),
             }
